@@ -111,7 +111,20 @@ pub enum Kind {
     /// `skew_ms`: replica B replays that much later than the origin committed
     /// (0 = at exactly the same simulated instants); `own_id`: replica B runs
     /// under its own node id instead of the origin's.
-    Replay { skew_ms: u16, own_id: bool },
+    /// `sm_b`: how replica B's state machine differs from A's default one (0 = not at
+    /// all, 1 = fast-path threshold 0.999, 2 = the state machine object is created anew
+    /// before every block, as after a restart, 3 = fast-path threshold 0). `bad_at` > 0:
+    /// the sequence both replicas are fed also contains, before the block at that
+    /// position (clipped; never the first), a copy of it whose state root is wrong,
+    /// signed again by the proposer (a block sequence as a faulty proposer produces it).
+    Replay {
+        skew_ms: u16,
+        own_id: bool,
+        #[serde(default)]
+        sm_b: u8,
+        #[serde(default)]
+        bad_at: u8,
+    },
 }
 
 /// The chain's codebook and transition-validation configuration
@@ -1570,6 +1583,7 @@ fn run_replica(
     t_init: u64,
     blocks: Vec<(u64, Block)>,
     skew_ns: u64,
+    sm_var: u8,
 ) -> Result<ReplicaOut, String> {
     let ctx2 = ctx.clone();
     let h = std::thread::Builder::new()
@@ -1586,10 +1600,18 @@ fn run_replica(
             chain.initialize().map_err(|e| format!("replica initialize: {e}"))?;
             let transport: Arc<dyn Transport> = Arc::new(MemoryTransport::new(node_id.clone()));
             let raft = Arc::new(RaftNode::new(node_id, Vec::new(), transport, RaftConfig::default()));
-            let sm = TensorStateMachine::new(chain, raft, store.clone());
+            let make = || match sm_var {
+                1 => TensorStateMachine::with_threshold(chain.clone(), raft.clone(), store.clone(), 0.999),
+                3 => TensorStateMachine::with_threshold(chain.clone(), raft.clone(), store.clone(), 0.0),
+                _ => TensorStateMachine::new(chain.clone(), raft.clone(), store.clone()),
+            };
+            let mut sm = make();
             let mut steps = Vec::new();
             for (wall, b) in &blocks {
                 ctx2.lock().wall_ns = *wall + skew_ns;
+                if sm_var == 2 {
+                    sm = make();
+                }
                 let r = sm.apply_block(b);
                 let root = compute_state_root(&store).map(|r| hex(&r)).unwrap_or_else(|e| format!("<{}>", err_kind(&e)));
                 steps.push((
@@ -1958,7 +1980,8 @@ impl C16 {
         }
     }
 
-    fn run_replay(&self, w: &World, t_init: u64, skew_ms: u16, own_id: bool, out: &mut RunOut) {
+    #[allow(clippy::too_many_arguments)]
+    fn run_replay(&self, w: &World, t_init: u64, skew_ms: u16, own_id: bool, sm_b: u8, bad_at: u8, out: &mut RunOut) {
         let ctx = &w.ctx;
         let chain = &w.chain;
         let height = chain.height();
@@ -1976,14 +1999,34 @@ impl C16 {
                 },
             }
         }
+        // a block with a wrong state root from the proposer itself, ahead of the right one
+        let mut bad_idx: Option<usize> = None;
+        if bad_at > 0 && blocks.len() >= 2 {
+            let j = usize::from(bad_at).min(blocks.len() - 1);
+            let (wall, good) = blocks[j].clone();
+            let mut bad = good;
+            flip(&mut bad.header.state_root);
+            bad.header.signature = chain.identity().sign(&bad.header.signing_bytes());
+            let emb = bad.header.delta_embedding.clone();
+            let lo = j.saturating_sub(10);
+            if emb.nnz() > 0 && blocks[lo..j].iter().any(|(_, p)| p.header.delta_embedding.nnz() > 0 && emb.cosine_similarity(&p.header.delta_embedding) >= 0.95) {
+                ctx.probe("replay_wrong_state_root_block_similar_to_recent_blocks");
+            }
+            ctx.event(&format!("sequence contains, ahead of block {}, a copy of it with a wrong state root signed by the proposer", j + 1));
+            blocks.insert(j, (wall, bad));
+            bad_idx = Some(j);
+        }
         let origin_root = compute_state_root(chain.store()).map(|r| hex(&r)).unwrap_or_default();
         let origin_dump = canon_map(&dump_store_data(chain.store(), false));
         let end_wall = ctx.lock().wall_ns;
         let pk = chain.public_key_bytes();
         let nid = chain.node_id().clone();
-        let a = run_replica(ctx, nid.clone(), pk, t_init, blocks.clone(), 0);
+        let a = run_replica(ctx, nid.clone(), pk, t_init, blocks.clone(), 0, 0);
         let b_id = if own_id { sim_identity(ctx).node_id() } else { nid };
-        let b = run_replica(ctx, b_id, pk, t_init, blocks.clone(), u64::from(skew_ms) * 1_000_000);
+        let b = run_replica(ctx, b_id, pk, t_init, blocks.clone(), u64::from(skew_ms) * 1_000_000, sm_b);
+        if sm_b != 0 {
+            ctx.probe("replay_replicas_with_different_state_machine_setups");
+        }
         ctx.lock().wall_ns = end_wall;
         let (a, b) = match (a, b) {
             (Ok(a), Ok(b)) => (a, b),
@@ -1998,15 +2041,17 @@ impl C16 {
             (false, true) => ":own-node-id",
             (true, true) => ":replayed-later+own-node-id",
         };
+        let nsteps = blocks.len();
         for (i, ((ra, roota), (rb, rootb))) in a.steps.iter().zip(b.steps.iter()).enumerate() {
-            ctx.event(&format!("replay block {}: A {ra} root {} | B {rb} root {}", i + 1, &roota[..8.min(roota.len())], &rootb[..8.min(rootb.len())]));
+            ctx.event(&format!("replay step {}: A {ra} root {} | B {rb} root {}", i + 1, &roota[..8.min(roota.len())], &rootb[..8.min(rootb.len())]));
             // "Replaying the same blocks on an empty store yields the same state root on every replica"
             if roota != rootb || ra != rb {
                 out.violation = Some(Violation {
                     class: format!("replicas-diverge{variant}"),
                     detail: format!(
-                        "after block {} of {height}: replica A {ra}, state root {roota}; replica B {rb}, state root {rootb}",
-                        i + 1
+                        "after step {} of {nsteps}{}: replica A {ra}, state root {roota}; replica B {rb}, state root {rootb}",
+                        i + 1,
+                        if bad_idx == Some(i) { " (the block with the wrong state root)" } else { "" }
                     ),
                 });
                 return;
@@ -2021,10 +2066,14 @@ impl C16 {
         }
         // the state root each block carries is the origin's; a replica in the very same
         // environment (same node id, same simulated instants) must reproduce it
-        if let Some((i, (ra, _))) = a.steps.iter().enumerate().find(|(_, (r, _))| r != "accepted") {
+        if let Some((i, (ra, _))) = a.steps.iter().enumerate().find(|(i, (r, _))| r != "accepted" && bad_idx != Some(*i)) {
             out.violation = Some(Violation {
                 class: "replica-cannot-reproduce-block-state-root".into(),
-                detail: format!("replica A (origin's node id, origin's clock readings) {ra} at block {} of {height}", i + 1),
+                detail: format!(
+                    "replica A (origin's node id, origin's clock readings) {ra} at step {} of {nsteps}{}",
+                    i + 1,
+                    if bad_idx.is_some_and(|j| j < i) { " (a block with a wrong state root came before)" } else { "" }
+                ),
             });
             return;
         }
@@ -2218,9 +2267,11 @@ impl Scenario for C16 {
                 },
             }),
             9 => match rng.below(10) {
-                0 | 1 => Kind::Replay { skew_ms: *rng.pick(&[1u16, 7, 250]), own_id: false },
-                2 => Kind::Replay { skew_ms: 0, own_id: true },
-                _ => Kind::Replay { skew_ms: 0, own_id: false },
+                0 | 1 => Kind::Replay { skew_ms: *rng.pick(&[1u16, 7, 250]), own_id: false, sm_b: 0, bad_at: 0 },
+                2 => Kind::Replay { skew_ms: 0, own_id: true, sm_b: 0, bad_at: 0 },
+                3..=5 => Kind::Replay { skew_ms: 0, own_id: false, sm_b: 0, bad_at: 0 },
+                // replicas set up differently, and sequences with a wrong block in them
+                _ => Kind::Replay { skew_ms: 0, own_id: false, sm_b: rng.below(4) as u8, bad_at: if rng.chance(2, 3) { rng.range(1, 4) as u8 } else { 0 } },
             },
             _ => Kind::Commits,
         };
@@ -2445,7 +2496,7 @@ impl Scenario for C16 {
         match &case.kind {
             Kind::Commits => {},
             Kind::Tamper(t) => self.run_tamper(&world, t, case.cosigned_blocks, second.as_ref(), &mut out),
-            Kind::Replay { skew_ms, own_id } => self.run_replay(&world, t_init, *skew_ms, *own_id, &mut out),
+            Kind::Replay { skew_ms, own_id, sm_b, bad_at } => self.run_replay(&world, t_init, *skew_ms, *own_id, *sm_b, *bad_at, &mut out),
         }
         out
     }
@@ -2534,10 +2585,20 @@ impl Scenario for C16 {
             }
         }
         match &case.kind {
-            Kind::Replay { skew_ms, own_id } => {
+            Kind::Replay { skew_ms, own_id, sm_b, bad_at } => {
                 if *skew_ms > 1 {
                     let mut c = case.clone();
-                    c.kind = Kind::Replay { skew_ms: 1, own_id: *own_id };
+                    c.kind = Kind::Replay { skew_ms: 1, own_id: *own_id, sm_b: *sm_b, bad_at: *bad_at };
+                    v.push(c);
+                }
+                if *sm_b != 0 {
+                    let mut c = case.clone();
+                    c.kind = Kind::Replay { skew_ms: *skew_ms, own_id: *own_id, sm_b: 0, bad_at: *bad_at };
+                    v.push(c);
+                }
+                if *bad_at != 0 {
+                    let mut c = case.clone();
+                    c.kind = Kind::Replay { skew_ms: *skew_ms, own_id: *own_id, sm_b: *sm_b, bad_at: 0 };
                     v.push(c);
                 }
             },
@@ -2586,6 +2647,8 @@ impl Scenario for C16 {
             "tamper_detected_by_signature",
             "tamper_detected_by_hash_link",
             "replay_blocks_accepted",
+            "replay_replicas_with_different_state_machine_setups",
+            "replay_wrong_state_root_block_similar_to_recent_blocks",
             // every operation kind reached a block
             "block_with_table_op",
             "block_with_graph_op",
